@@ -119,8 +119,15 @@ func c04Product(r *Run, local string, src uint32) {
 						continue
 					}
 					if !o.OK {
-						if p.Exp == MustSucceed {
-							r.Violate("C04 well-formed burn message was not minted", fmt.Sprintf("%s: %s", desc, o.Err), rp("accepted, one mint of "+amt.String()+denom, o.Err))
+						if p.Exp == MustSucceed && local != denom {
+							// differential: the same message under the lower-case spelling of the linked denom
+							ctl := c04Scenario(denom, fresh).Build(KindDB)
+							if co := ctl.Apply(a); co.OK {
+								r.Violate("C04 burn message not minted when the linked denom is stored with upper-case letters",
+									fmt.Sprintf("%s: rejected (%s) although the identical message mints when the pair is linked to %q", desc, o.Err, denom), rp("one mint of "+amt.String()+denom, o.Err))
+							}
+						} else if p.Exp == MustSucceed {
+							r.Truncate("C04: a well-formed burn message was rejected (" + desc + "); acceptance is C03's subject, nothing to judge here")
 						}
 						continue
 					}
